@@ -5,7 +5,7 @@ from . import rule, info
 from ..program import AnalysisError, src, norm, ClassInfo
 from ..affine import linear, NotAffine
 from ..tables import MISS
-from ..util import (locals_from_attrs, is_name, calls_in, callee_qual, deref, ancestors, evaluator_calls, stmt_of, parent,
+from ..util import (decision_function, Undecidable, locals_from_attrs, is_name, calls_in, callee_qual, deref, ancestors, evaluator_calls, stmt_of, parent,
                     handler_outcomes, completes_normally, handler_covers, in_handler_of, raised_class, is_subclass,
                     cls_name, fmt_witness)
 from .common import option_usage
@@ -391,13 +391,39 @@ def broadcast(ctx):
     ctx.floor(5)
 
 
+def discovery_table(ctx, u, dunder, results, base_types, what):
+    """the autodiscover function as a decision table over its three conditions, whatever the
+    nesting / order of the tests"""
+    import itertools
+    t = u.params[0]
+    A = 'issubclass(%s, %s)' % (t, base_types)
+    B = "callable(getattr(%s, '%s', None))" % (t, dunder)
+    C = "callable(getattr(%s, 'index', None))" % t
+    try:
+        atoms, decide = decision_function(u)
+    except Undecidable as e:
+        ctx.ob(False, u, '%s handler discovery is a decision over three type tests' % what, str(e))
+        return
+    ok = set(atoms) <= {A, B, C} and A in atoms and B in atoms and C in atoms
+    ctx.ob(ok, u, '%s handler discovery tests: unsupported base, item dunder, index method: %s' % (what, atoms))
+    if not ok:
+        return
+    bad = []
+    for a, b, c in itertools.product((True, False), repeat=3):
+        want = results['none'] if a else (results['attr'] if not b else (results['seq'] if c else results['item']))
+        got = decide({A: a, B: b, C: c})
+        if got != ('return', want):
+            bad.append('unsupported=%s %s=%s index=%s -> %s (expected %s)' % (a, dunder, b, c, got[1], want))
+    ctx.ob(not bad, u, '%s handler discovery: scalars -> False, no %s -> attribute handler, with .index -> sequence handler, '
+           'else item handler' % (what, dunder), '; '.join(bad[:3]))
+
+
 @rule('C11.8')
 def default_assign_handlers(ctx):
     p = ctx.program
     u = ctx.unit('mutation._assign_autodiscover')
-    rets = [n for n in u.own_nodes() if isinstance(n, ast.Return)]
-    vals = [norm(r.value) for r in rets]
-    ctx.ob(vals == ['False', '_set_sequence_item', 'operator.setitem', 'setattr'], u, 'assign handler discovery: %s' % vals)
+    discovery_table(ctx, u, '__setitem__', {'none': 'False', 'attr': 'setattr', 'seq': '_set_sequence_item', 'item': 'operator.setitem'},
+                    '_UNASSIGNABLE_BASE_TYPES', 'assign')
     su = ctx.unit('mutation._set_sequence_item')
     st = [n for n in su.own_nodes() if isinstance(n, ast.Assign) and isinstance(n.targets[0], ast.Subscript)]
     ok = len(st) == 1 and norm(st[0]) == '%s[int(%s)] = %s' % tuple(su.params)
